@@ -20,6 +20,9 @@ inductive Clause
   | itemsInside          -- hostile stream: the items returned are longer than the stream that was fed
   | writerFormat         -- WriteStringToStream did not emit `len ":" payload ","`
   | jsonRoundtrip        -- JsonDecode (JsonEncode v) ≠ v
+  | messageOnlyObjects   -- JsonRpc::DecodeMessage returned something that is not a dictionary (null pointer, other value)
+  | messageNotObjectText -- JsonRpc::DecodeMessage returned a dictionary for a payload that is not a JSON object text
+  | noCrash              -- the real code crashed, aborted or hung while processing the case
   deriving Repr, DecidableEq
 
 def Clause.name : Clause → String
@@ -27,6 +30,7 @@ def Clause.name : Clause → String
   | .tlsValidRejected => "tlsValidRejected" | .tlsLimitLate => "tlsLimitLate"
   | .framesSplit => "framesSplit" | .framesEnd => "framesEnd" | .readerEnds => "readerEnds"
   | .itemsInside => "itemsInside" | .writerFormat => "writerFormat" | .jsonRoundtrip => "jsonRoundtrip"
+  | .messageOnlyObjects => "messageOnlyObjects" | .messageNotObjectText => "messageNotObjectText" | .noCrash => "no_crash"
 
 /-! ### frames from the network -/
 
